@@ -66,7 +66,7 @@ def main():
 
     def target(data):
         test.hypothesis.fuzz_one_input(data)
-        if stats["executions"] % 100 == 0:
+        if stats["executions"] % 20 == 0:
             _dump(stats, ctx, args)
 
     # starting corpus: a few deterministic pseudo-random blobs long enough for whole cases (plus the empty input)
